@@ -38,12 +38,13 @@ class Broken(Exception):
     pass
 
 # ----------------------------------------------------------------------------- units
-INLINE_OK = re.compile(r'basic_streambuf|char_traits|_ZSt4moveI|_ZSt7forwardI|initializer_list|_ZNKSt8__detail|_ZNSt8__detail|_ZSt3minI|_ZSt3maxI|'
-                       r'__normal_iterator|_ZNKSt16initializer_list|_ZSt9addressof|_ZSt11__addressof|_ZNSt6chrono|_ZNKSt6chrono|_ZNSt5ratio|'
+INLINE_OK = re.compile(r'^(?:_ZNK?St15basic_streambuf|_ZNSt11char_traitsIcE|_ZSt4moveI|_ZSt7forwardI|_ZNK?St16initializer_list|_ZSt3minI|_ZSt3maxI|'
+                       r'_ZNK?9__gnu_cxx17__normal_iterator|_ZN9__gnu_cxx(?:eq|ne|lt|mi)|_ZSt9addressof|_ZSt11__addressof|_ZNK?St6chrono|_ZNSt5ratio|_ZNSt6chrono|_ZSt(?:mi|pl|lt|gt|ge|le|eq|ne)[IR]?.*St6chrono|'
                        r'_ZSt3getI|_ZNSt5tupleI|_ZNSt11_Tuple_impl|_ZNSt10_Head_base|_ZSt12__get_helper|_ZSt4swapI|'
-                       r'_ZNKSt6atomic|_ZNSt6atomic|_ZNSt13__atomic_base|_ZNKSt13__atomic_base|_ZStanSt12memory_order|_ZSt23__cmpexch_failure_order')
+                       r'_ZNK?St6atomic|_ZNK?St13__atomic_base|_ZStanSt12memory_order|_ZSt23__cmpexch_failure_order|_ZNSt15__new_allocator|_ZNSaI|_ZNKSaI|_ZNSt16allocator_traits|_ZNSt19__ptr_traits|_ZSt12__to_address|'
+                       r'_ZSt8distanceI|_ZSt10__distanceI|_ZSt19__iterator_category|_ZNSt14pointer_traits)')
 
-def sel_mark(text, keep_noinline, extra_inline=None, std_too=True):
+def sel_mark(text, keep_noinline, extra_inline=None, std_too=True, marked_out=None):
     """sel mode: add noinline to every std::/__gnu_cxx:: function definition except whitelisted helpers and to the
     functions the harness stubs, so that opt -O1 keeps them as call boundaries."""
     attr_groups = {}
@@ -56,11 +57,12 @@ def sel_mark(text, keep_noinline, extra_inline=None, std_too=True):
             name = m.group(1) if m else ''
             am = re.search(r'#(\d+)(?: (?:align \d+ |comdat |personality[^{]*|section "[^"]*" )*)?\s*(?:personality[^{]*)?(?:!dbg ![0-9]+ )?\{$', ln)
             is_std = name.startswith(('_ZNSt', '_ZNKSt', '_ZSt', '_ZN9__gnu_cxx', '_ZNK9__gnu_cxx', '_ZNSa', '_ZNKSa', '_ZStpl', '_ZSteq', '_ZStne', '_ZStlt'))
-            want = (std_too and is_std and not INLINE_OK.search(name) and not (extra_inline and extra_inline.search(name))) or name in keep_noinline
+            want = (std_too and is_std and not INLINE_OK.match(name) and not (extra_inline and extra_inline.search(name))) or name in keep_noinline
             if want and am and 'alwaysinline' not in attr_groups.get(am.group(1), '') and ' noinline' not in ln:
                 i = ln.rfind('#' + am.group(1))
                 ln = ln[:i] + 'noinline ' + ln[i:]
                 ln = ln.replace(' available_externally ', ' linkonce_odr ')
+                if marked_out is not None and is_std: marked_out.add(name)
         out.append(ln)
     return '\n'.join(out)
 
@@ -96,8 +98,12 @@ def build_unit(work, name, u):
         else:
             os.rename(linked, ll)
     else:
+        marked = set()
         txt = sel_mark(open(linked).read(), set(u.get('stubs', [])) | set(u.get('noinline', [])),
-                       re.compile(u['extra_inline']) if u.get('extra_inline') else None, std_too=(mode != 'inl'))
+                       re.compile(u['extra_inline']) if u.get('extra_inline') else None, std_too=(mode != 'inl'), marked_out=marked)
+        if mode != 'inl':
+            keep = set(u.get('translate_std', []))
+            u = dict(u); u['stubs'] = sorted((set(u.get('stubs', [])) | marked) - keep)
         marked = os.path.join(work, name + '.marked.ll')
         open(marked, 'w').write(txt)
         r = sh(['opt-14', '-S', '-O1', '-vectorize-loops=false', '-vectorize-slp=false', marked, '-o', ll])
@@ -105,7 +111,8 @@ def build_unit(work, name, u):
         os.unlink(linked); os.unlink(marked)
     c = os.path.join(work, name + '.c'); info = os.path.join(work, name + '.info.json')
     cmd = [sys.executable, os.path.join(ENGINE, 'ir2c.py'), c, ll, '--roots', ','.join(u['roots']), '--info', info]
-    if u.get('stubs'): cmd += ['--stub', ','.join(u['stubs'])]
+    if u.get('stubs'):
+        sf = os.path.join(work, name + '.stubs'); open(sf, 'w').write('\n'.join(u['stubs'])); cmd += ['--stubfile', sf]
     if u.get('globals'): cmd += ['--globals', ','.join(u['globals'])]
     r = sh(cmd)
     if r.returncode: raise Broken('ir2c failed for unit %s:\n%s' % (name, r.stdout[-3000:]))
